@@ -1426,8 +1426,9 @@ Tokens""")]),
                                     ),""")]),
     # ---- RETURN-CONST, DOC-ALL-LINES next-of-lines (C04)
     dict(id="returnconst-rendered-to-source", kind=B, props=["C04"], expect="RETURN-CONST", edits=[("emitter_utils.py",
-         """                "default": get_value(e.value.elts[1])
-                if code_quoted(get_value(e.value.elts[1]))
+         """                "default": e.value.elts[1].value
+                if isinstance(getattr(e.value.elts[1], "value", None), str)
+                and code_quoted(e.value.elts[1].value)
                 else to_code(e.value.elts[1]).rstrip("\\n"),""", """                "default": to_code(e.value.elts[1]).rstrip("\\n"),""")]),
     dict(id="docalllines-argparse-return-first-line", kind=B, props=["C04", "C18"], expect="DOC-ALL-LINES", edits=[("emitter_utils.py",
          """                "doc": extract_default(
